@@ -466,6 +466,22 @@ class Run:
 
     def e_IfExp(self, node, st, maybe):
         out = []
+        if getattr(self, '_in_comp', 0):
+            # inside a comprehension nothing forks: the three parts are
+            # evaluated as possible ('maybe') events and the conditional
+            # expression is kept as a value
+            cur = [(st, [], None)]
+            for part in (node.test, node.body, node.orelse):
+                nxt = []
+                for s, vals, sig in cur:
+                    if sig is not None:
+                        nxt.append((s, vals, sig))
+                        continue
+                    for s2, v, sig2 in self.eval(part, s, True):
+                        nxt.append((s2, vals + [v], sig2))
+                cur = nxt
+            return [(s, ast.IfExp(test=v[0], body=v[1], orelse=v[2])
+                     if sig is None else None, sig) for s, v, sig in cur]
         for s, truth, sig in self.branch(node.test, st):
             if sig is not None:
                 out.append((s, None, sig))
@@ -474,6 +490,13 @@ class Run:
         return out
 
     def _comp(self, node, st, maybe, elts):
+        self._in_comp = getattr(self, '_in_comp', 0) + 1
+        try:
+            return self._comp2(node, st, maybe, elts)
+        finally:
+            self._in_comp -= 1
+
+    def _comp2(self, node, st, maybe, elts):
         # comprehension: bind targets to fresh symbols, events are 'maybe'
         s = st.fork()
         for g in node.generators:
